@@ -242,6 +242,16 @@ fn trace(out: &mut Out, ctl: &mut Ctl, seed: u64, n_calls: usize, st: &mut Stats
             let post = unsafe { observe_c(ctx) };
             let tpost = observe_twin(&mut tw);
             let post_state = state_of(&post, &tw);
+            // transcript record of the getter model (Driver/CApiGetters.lean recomputes every C getter's answer from the
+            // twin editor's Rust getters with the Lean model of capi/src/io.rs)
+            out.rec(&capiget_record(&mut tw, &post));
+            st.add("getter_records", 1);
+            if post.selecting() {
+                st.add("getter_records_with_open_list", 1);
+            }
+            if post.buf.len() > 255 || post.commit.len() > 255 || post.aux.len() > 255 {
+                st.add("getter_records_with_a_text_longer_than_its_static_buffer", 1);
+            }
             st.add("calls", 1);
             st.add(&format!("h.{}", op.handler()), 1);
             st.add("getter_observations", 1);
@@ -258,6 +268,12 @@ fn trace(out: &mut Out, ctl: &mut Ctl, seed: u64, n_calls: usize, st: &mut Stats
             }
             if let Some((g, c, t, p)) = diff(&post, &tpost) {
                 verdicts.push((p, format!("glue-mismatch after {}: {} answers {} , the editor driven with the same calls gives {}", op.text(), g, c, t)));
+                // the same input for the checks that own the getter model's correspondence (records `capiget obs`: C17, C06)
+                for q in ["C17", "C06"] {
+                    if p != q {
+                        verdicts.push((q, format!("getter-model-mismatch after {}: {} answers {} , the getter model over the editor driven with the same calls gives {}", op.text(), g, c, t)));
+                    }
+                }
             }
             if rng.chance(1, 6) {
                 st.add("observations_repeated", 1);
